@@ -380,8 +380,12 @@ class Ctx:
         ev = {"property_id": self.pid, "tier": self.tier, "seed": self.seed, "level": "proof",
               "coverage": cov, "assumptions": BASE_TRUSTED + self.assumptions,
               "wall_s": round(time.time() - self.t0, 2), "violations": len(self.violations)}
-        os.makedirs(os.path.join(VERIF, "evidence"), exist_ok=True)
-        with open(os.path.join(VERIF, "evidence", self.pid + ".json"), "w") as f:
+        # evidence/Cxx.json describes runs against /repo itself; trial runs against another tree (seeded changes:
+        # VERIF_REPO / VERIF_COQ set) and replays write theirs next to the scratch logs instead
+        trial = os.path.realpath(REPO) != "/repo" or bool(os.environ.get("VERIF_COQ")) or getattr(self, "is_replay", False)
+        edir = os.path.join(SCRATCH_ROOT, "trial_evidence") if trial else os.path.join(VERIF, "evidence")
+        os.makedirs(edir, exist_ok=True)
+        with open(os.path.join(edir, self.pid + ".json"), "w") as f:
             json.dump(ev, f, indent=1, default=str)
         shutil.rmtree(self.scratch, ignore_errors=True)
         print("%s %s: obligations %d/%d, correspondence cases %d, evaluations %d, violations %d, known %d, %.0fs"
